@@ -459,6 +459,10 @@ lp_feasibility_set_int_t* lp_feasibility_set_int_intersect_internal(const lp_fea
       *status = ordered_integer_set_minus(&result->elements, &result->size,
                                           s1->elements, s1->size,
                                           s2->elements, s2->size);
+      // nothing removed and as many elements as s2 has: the result is s2 as well (s1 keeps precedence)
+      if (*status == S1 && s1->size == lp_feasibility_set_int_size_approx(s2)) {
+        *status = BOTH;
+      }
       result->inverted = false;
     }
   }
@@ -514,6 +518,10 @@ lp_feasibility_set_int_t* lp_feasibility_set_int_union_internal(const lp_feasibi
       *status = ordered_integer_set_minus(&result->elements, &result->size,
                                           s1->elements, s1->size,
                                           s2->elements, s2->size);
+      // nothing removed and s2 has as many elements as s1: the result is s2 as well (s1 keeps precedence)
+      if (*status == S1 && s2->size == lp_feasibility_set_int_size_approx(s1)) {
+        *status = BOTH;
+      }
       result->inverted = true;
     }
   }
